@@ -382,6 +382,24 @@ def build(w: dict) -> xarray.Dataset:
         if v.get("late"):
             continue                      # added later, in place (see cellsdrv Mutate)
         ds[v["name"]] = var_array(w, v)
+    first = w.get("first_var")
+    if first and first in ds.data_vars:
+        # the same dataset with this variable declared first: the dataset's own dimension order (dataset.sizes) then
+        # follows that variable's dimensions (e.g. x before y), as in files whose first variable is stored (x, y)
+        attrs, enc = dict(ds.attrs), dict(ds.encoding)
+        ds = xarray.Dataset({first: ds[first].variable}).merge(ds)
+        ds.attrs.update(attrs); ds.encoding.update(enc)
+    cenc = w.get("coordenc")
+    if cenc:
+        # on-disk encoding of the coordinate variables (takes effect when the dataset is written): a finite fill value
+        # marking the cells without coordinates, or integers packed with scale_factor = one quantum (exact)
+        names = [n for n in ds.variables if ds[n].attrs.get("units") in ("degrees_north", "degrees_east") and ds[n].dtype.kind == "f"]
+        names += [ds[n].attrs["bounds"] for n in list(names) if ds[n].attrs.get("bounds") in ds.variables]
+        for n in names:
+            if cenc == "fill":
+                ds[n].encoding.update({"_FillValue": -999.0})
+            elif cenc == "packed":
+                ds[n].encoding.update({"dtype": "int32", "scale_factor": SCALE, "_FillValue": -2147483647})
     return ds
 
 
